@@ -1,7 +1,8 @@
 (* C08 — Network-layer headers and messages encode and decode faithfully.
    Property theorems only; proofs live in Bac.NpciFacts / Bac.NpciMsgFacts, the model in Bac.Npci. *)
 From Bac Require Import Base Npci NpciFacts NpciMsgFacts NpciSound NpciBodyFacts NpciRegistry NpciReenc.
-From BacGen Require Import NpduRegistry.
+From Bac Require Import NpciRt NpciGenFacts NpciGenEnc NpciGenDec NpciGen.
+From BacGen Require Import NpduRegistry NpciFns.
 Open Scope N_scope.
 
 (* every well-formed header (version 1, priority < 4, nets < 65535, MACs of 1..255 octets, hop count
@@ -255,6 +256,97 @@ Theorem C08_decoded_fields_wf : forall bs c h r, bytes_ok bs = true -> dec_npci 
 Proof. exact dec_npci_wf. Qed.
 Print Assumptions C08_decoded_fields_wf.
 
+(* ---- the tie by TRANSLATION.  BacGen.NpciFns is regenerated from py34/bacpypes/npdu.py on every run
+   (translator/gen_npcifns.py: the bodies of NPCI.encode/decode, NPDU.encode/decode and the encode/decode
+   methods of the twelve message classes, statement by statement).  The translated methods are, for all
+   inputs, the hand model the theorems above are about ... *)
+
+(* NPCI.encode on arbitrary objects: the octets appended to the PDU are enc_npci of the object's fields (or
+   the same exception), the control octet is stored in npduControl, expecting-reply / priority are passed down *)
+Theorem C08_translated_npci_encode_is_model : forall o p,
+  NPCI_encode o p =
+  do b <- enc_npci (npci_of o);
+  Ok (set_npduControl (Some (control_of (npci_of o))) o,
+      set_pduNetworkPriority (pduNetworkPriority o) (set_pduExpectingReply (pduExpectingReply o) (app_data b p))).
+Proof. exact NPCI_encode_is_model. Qed.
+Print Assumptions C08_translated_npci_encode_is_model.
+
+(* NPCI.decode on arbitrary objects and buffers: dec_npci of the buffer; the raw control octet is stored; a
+   field the frame does not carry keeps the value the object had *)
+Theorem C08_translated_npci_decode_is_model : forall o p,
+  NPCI_decode o p = do (ch, r) <- dec_npci (pduData p); Ok (obj_after o (fst ch) (snd ch), set_pduData r p).
+Proof. exact NPCI_decode_is_model. Qed.
+Print Assumptions C08_translated_npci_decode_is_model.
+
+Theorem C08_translated_npdu_is_model :
+  (forall h payload, gen_enc_npdu h payload = enc_npdu h payload) /\ (forall bs, gen_dec_npdu bs = dec_npdu bs).
+Proof. exact (conj gen_enc_npdu_is_model gen_dec_npdu_is_model). Qed.
+Print Assumptions C08_translated_npdu_is_model.
+
+Theorem C08_translated_header_is_model :
+  (forall h, gen_enc_npci h = enc_npci h) /\ (forall bs, gen_dec_npci bs = dec_npci bs).
+Proof. exact (conj gen_enc_npci_is_model gen_dec_npci_is_model). Qed.
+Print Assumptions C08_translated_header_is_model.
+
+(* the twelve message classes: every translated encode is enc_msg, every translated decode (dispatched on
+   the translated messageType constants) is dec_msg, on every parameter value / every octet string *)
+Theorem C08_translated_msg_is_model :
+  (forall m, gen_enc_msg m = enc_msg m) /\ (forall t bs, gen_dec_msg t bs = dec_msg t bs).
+Proof. exact (conj gen_enc_msg_is_model gen_dec_msg_is_model). Qed.
+Print Assumptions C08_translated_msg_is_model.
+
+Theorem C08_translated_frame_is_model :
+  (forall h m, gen_enc_frame h m = enc_frame h m) /\ (forall bs, gen_dec_frame bs = dec_frame bs).
+Proof. exact (conj gen_enc_frame_is_model gen_dec_frame_is_model). Qed.
+Print Assumptions C08_translated_frame_is_model.
+
+(* ... so the main facts hold of the code as translated now: *)
+Theorem C08_translated_roundtrip : forall h payload, wf_npci h = true ->
+  exists bs, gen_enc_npci h = Ok bs /\ gen_dec_npci (bs ++ payload) = Ok (control_of h, h, payload).
+Proof. exact gen_roundtrip. Qed.
+Print Assumptions C08_translated_roundtrip.
+
+Theorem C08_translated_layout : forall h, wf_npci h = true -> gen_enc_npci h = Ok (spec6_2 h).
+Proof. exact gen_layout. Qed.
+Print Assumptions C08_translated_layout.
+
+Theorem C08_translated_refuses_version : forall bs, (forall r, bs <> 1 :: r) -> gen_dec_npci bs = Err DecodingError.
+Proof. exact gen_refuses_version. Qed.
+Print Assumptions C08_translated_refuses_version.
+
+Theorem C08_translated_refuses_bad_sadr : forall h net mac payload,
+  wf_npci (with_sadr h None) = true -> net < 65536 -> lenN mac < 256 -> (net = 65535 \/ mac = []) ->
+  exists bs, gen_enc_npci (with_sadr h (Some (RStation net mac))) = Ok bs
+    /\ bs = spec6_2 (with_sadr h (Some (RStation net mac)))
+    /\ gen_dec_npci (bs ++ payload) = Err DecodingError.
+Proof. exact gen_refuses_bad_sadr. Qed.
+Print Assumptions C08_translated_refuses_bad_sadr.
+
+Theorem C08_translated_refuses_truncated : forall h bs k, wf_npci h = true -> gen_enc_npci h = Ok bs ->
+  (k < length bs)%nat -> gen_dec_npci (firstn k bs) = Err DecodingError.
+Proof. exact gen_refuses_truncated. Qed.
+Print Assumptions C08_translated_refuses_truncated.
+
+Theorem C08_translated_decode_error_class : forall bs e, gen_dec_npci bs = Err e -> e = DecodingError.
+Proof. exact gen_decode_error_class. Qed.
+Print Assumptions C08_translated_decode_error_class.
+
+Theorem C08_translated_msg_roundtrip : forall m, wf_msg m = true ->
+  exists bs, gen_enc_msg m = Ok bs /\ gen_dec_msg (msg_type m) bs = Ok (m, []).
+Proof. exact gen_msg_roundtrip. Qed.
+Print Assumptions C08_translated_msg_roundtrip.
+
+Theorem C08_translated_frame_roundtrip : forall h m,
+  wf_npci (with_msg h (msg_type m)) = true -> wf_msg m = true ->
+  exists bs, gen_enc_frame h m = Ok bs
+    /\ gen_dec_frame bs = Ok (control_of (with_msg h (msg_type m)), with_msg h (msg_type m), m, []).
+Proof. exact gen_frame_roundtrip. Qed.
+Print Assumptions C08_translated_frame_roundtrip.
+
+Theorem C08_translated_unregistered : forall t bs, ~ In t registered_types -> gen_dec_msg t bs = Err KeyErr.
+Proof. exact gen_unregistered. Qed.
+Print Assumptions C08_translated_unregistered.
+
 (* ---- non-vacuity: the hypotheses are satisfiable, with every optional field exercised *)
 Example C08_wf_examples :
   forallb wf_npci
@@ -312,4 +404,18 @@ Example C08_reenc_examples :
      = Ok (Some [1; 0x28; 0; 5; 1; 9; 0; 3; 1; 8; 6; 0xAA])          (* bits 6,4 dropped, SADR added, hop count 6 *)
   /\ reenc_fwd (mkFwd None true) [1; 0x20; 0; 5; 1; 9; 0] = Ok None                                   (* hop count 0 *)
   /\ reenc_frame [1; 0xD0; 5; 0; 1; 0; 2] = Ok [1; 0x80; 5; 0; 1; 0; 2].
+Proof. vm_compute. repeat split; reflexivity. Qed.
+
+(* the translated functions compute: the example frames above through the code as translated *)
+Example C08_translated_examples :
+  gen_enc_npdu (mkNpci 1 true 3 (Some (RStation 5 [1;2;3])) (Some (RStation 7 [9])) (Some 255) None None) [1;2]
+    = Ok [1; 0x2F; 0; 5; 3; 1; 2; 3; 0; 7; 1; 9; 255; 1; 2]
+  /\ gen_dec_npci [1; 0x2F; 0; 5; 3; 1; 2; 3; 0; 7; 1; 9; 255; 1; 2]
+    = Ok (0x2F, mkNpci 1 true 3 (Some (RStation 5 [1;2;3])) (Some (RStation 7 [9])) (Some 255) None None, [1;2])
+  /\ gen_dec_npci [1; 8; 0; 5; 0] = Err DecodingError
+  /\ gen_enc_msg (InitRT [mkRte 5 1 [1;2]; mkRte 6 2 []]) = Ok [2; 0; 5; 1; 2; 1; 2; 0; 6; 2; 0]
+  /\ gen_dec_msg 6 [2; 0; 5; 1; 2; 1; 2; 0; 6; 2; 0; 9] = Ok (InitRT [mkRte 5 1 [1;2]; mkRte 6 2 []], [9])
+  /\ gen_dec_msg 1 [0; 5; 1; 0; 7] = Err DecodingError
+  /\ gen_dec_msg 1 [0; 5; 1; 0] = Ok (IAmRouter [5; 256], [])
+  /\ gen_dec_frame [1; 0x80; 5; 0; 1; 0; 2] = Ok (0x80, mkNpci 1 false 0 None None None (Some 5) None, RouterAvailable [1; 2], []).
 Proof. vm_compute. repeat split; reflexivity. Qed.
